@@ -85,7 +85,8 @@ def build(tier, seed):
     def _meta():
         return metadata.meta_preprocessor(PROP)
     _meta.__name__ = "meta_preprocessor"
-    tasks = [a_task(PROP, settingsc.parse_to_dict), a_task(PROP, _meta), order_task(), bounded_task()]
+    tasks = [a_task(PROP, settingsc.parse_to_dict), a_task(PROP, _meta), order_task(), bounded_task(),
+             Task(f"{PROP}.B.meta_patterns", PROP, "META_RE / META_MORE_RE", lambda: metadata.rx_obligations(PROP))]
     meta = {
         "trusted_base": TRUSTED_BASE,
         "assumptions": PYVC_ASSUMPTIONS + [
